@@ -548,6 +548,35 @@ class Interp:
             self._new(self.S, c, ref, q, "apply", ins, "arith.apply")
             self.compare("arith.apply.operand", a, "state after being applied to")
 
+    def i_tie(self, ins):
+        """(|..1_i..0_j..> + |..0_i..1_j..>)/sqrt2 on two identical sites: exactly degenerate non-zero singular values
+        (bitwise ties across different quantum-number blocks) at every cut between i and j"""
+        from renormalizer.mps import Mps
+
+        pairs = [(i, j) for i in range(self.n) for j in range(i + 1, self.n)
+                 if self.spec["sites"][i] == self.spec["sites"][j] and self.dims[i] >= 2]
+        if not pairs:
+            return
+        i, j = pairs[ins.get("pair", 0) % len(pairs)]
+        base = [ins["occ"][k % len(ins["occ"])] % self.dims[k] for k in range(self.n)]
+        base[i] = base[j] = 0
+        objs = []
+        q = None
+        for hot in (i, j):
+            occ = list(base)
+            occ[hot] = 1
+            cond = {gen.site_dofs(self.spec, k)[0]: int(occ[k]) for k in range(self.n)}
+            ok, m = self.guard("create.prod", Mps.hartree_product_state, self.fresh_model(), cond)
+            if not ok:
+                return
+            objs.append(m)
+            q = sum((gen.site_sigmaqn(self.spec, k)[occ[k]] for k in range(self.n)), np.zeros(len(self.zero_q), dtype=int))
+        ok, c = self.guard("arith.add", objs[0].add, objs[1])
+        if ok:
+            c.scale(ins.get("fac", 1.0) / np.sqrt(2.0), inplace=True)
+            self.r.classes.append("state.exact_singular_value_tie")
+            self.add_state(c, q, "tie")
+
     def i_local_op(self, ins):
         """apply a bond-dimension-1 operator acting on ONE site (all other site tensors keep their gauge)"""
         from renormalizer.mps import Mpo
